@@ -131,10 +131,40 @@ func (d *muxDom) Gen(r *gen.R, tier string, emit func(string)) {
 		}
 		var regs []regd
 		mounts := map[int][2]string{} // child -> parent, path
+		children := map[int][]int{}    // parent -> children mounted below it (first mount of each child)
 		nops := 2 + r.Intn(10)
 		for i := 0; i < nops; i++ {
 			m := r.Intn(nmux)
-			switch k := r.Intn(10); {
+			switch k := r.Intn(11); {
+			case k == 10:
+				// registration THROUGH mounts: a pattern of mux m that runs through one or two levels
+				// of already mounted sub-muxes and has placeholders (and group tags) behind them
+				if len(children[m]) == 0 {
+					for pm := range children {
+						m = pm
+					}
+				}
+				if len(children[m]) == 0 {
+					continue
+				}
+				c := children[m][r.Intn(len(children[m]))]
+				prefix := mergeP(mounts[c][1], mpaths[c])
+				if len(children[c]) > 0 && r.Bool() {
+					c2 := children[c][r.Intn(len(children[c]))]
+					prefix = mergeP(prefix, mergeP(mounts[c2][1], mpaths[c2]))
+				}
+				rest := randPattern(r, 3)
+				if !strings.Contains(rest, "$") {
+					rest = mergeP(r.Pick([]string{"$x", "$y", "a.$x", "$x.$y"}), rest)
+				}
+				p := mergeP(prefix, rest)
+				if r.Chance(1, 4) {
+					emit(wire.Line("listen", strconv.Itoa(m), p))
+				} else {
+					args := append([]string{"handle", strconv.Itoa(m), p}, randGroup(r, p)...)
+					emit(wire.Line(args...))
+					regs = append(regs, regd{m, p})
+				}
 			case k < 6:
 				p := randPattern(r, 3)
 				if len(regs) > 0 && r.Chance(1, 6) {
@@ -169,6 +199,7 @@ func (d *muxDom) Gen(r *gen.R, tier string, emit func(string)) {
 					emit(wire.Line("mount", strconv.Itoa(m), mp, strconv.Itoa(c)))
 					if _, ok := mounts[c]; !ok {
 						mounts[c] = [2]string{strconv.Itoa(m), mp}
+						children[m] = append(children[m], c)
 					}
 				}
 			}
